@@ -680,6 +680,41 @@ func (env *Env) evalCall(n *ECall) TV {
 			}
 		}
 		evalFail("atiter: no loop %s", lit.V)
+	case "lastassert":
+		// lastassert("*T"): the pointer obtained by the latest type assertion to *T on this path (arbitrary if none)
+		sx, ok := n.Args[0].(*EStr)
+		if !ok {
+			evalFail("lastassert: type string expected")
+		}
+		if env.opaqueLast != nil {
+			evalFail("lastassert: not meaningful in a callee's clause seen from a caller")
+		}
+		t, err := e.p.LookupType(sx.V)
+		if err != nil {
+			evalFail("lastassert: %v", err)
+		}
+		if len(n.Args) == 2 {
+			// lastassert("*T", "field"): what that field held when the assertion was made
+			fx, ok := n.Args[1].(*EStr)
+			if !ok {
+				evalFail("lastassert: field name expected")
+			}
+			var ft types.Type
+			if pt, ok := t.Underlying().(*types.Pointer); ok {
+				if st, ok := pt.Elem().Underlying().(*types.Struct); ok {
+					for i := 0; i < st.NumFields(); i++ {
+						if st.Field(i).Name() == fx.V {
+							ft = st.Field(i).Type()
+						}
+					}
+				}
+			}
+			if ft == nil {
+				evalFail("lastassert: %s has no field %s", sx.V, fx.V)
+			}
+			return TV{T: e.heapGet(env.state, "lasttaf|"+e.p.relTypeString(t)+"|"+fx.V), Typ: ft}
+		}
+		return TV{T: e.heapGet(env.state, "lastta|"+e.p.relTypeString(t)), Typ: t}
 	case "entered":
 		// entered(k): the head of loop k has been reached by this activation on this path
 		lit, ok := n.Args[0].(*EInt)
